@@ -130,6 +130,7 @@ func checkC18(c *Ctx, r *Report) {
 		r.add("C18.a", "guardedby", "packages-facade:only-glob-matched-files-are-sources", "the glob-matched files are kept as a set and each is a source once", nil, nil, "the glob-matched set (a map keyed by absolute path) was not found in initWithGlobs")
 	}
 	checkStatusCodeClasses(c, r, "C18.d")
+	checkOwnDocWins(c, r, "C18.b")
 	checkContainerFields(c, r, "C18.a")
 	ruleDecisionInputs(c, r, "C18.c", "core/validators")
 	// every comment line's own position is asked of the file set (a line guessed from its
@@ -958,4 +959,94 @@ func checkStatusCodeClasses(c *Ctx, r *Report, clause string) {
 		}
 	}
 	r.add(clause, "fieldflow", val+":known-code(parsed)", "the known-code test is given the number the numeric parse produced", []string{val}, s2, viol)
+}
+
+// checkOwnDocWins: an entity's annotations and description come from its own doc comment; the
+// comment of the enclosing declaration (`type ( ... )`, or the single-spec `type X …` whose
+// comment go/parser attaches to the GenDecl) is consulted only when the entity has none. In the
+// functions that pick the comment source, every read of GenDecl.Doc is therefore dominated by
+// "the own comment is nil". (Both comments merged, or the block's preferred, give every member
+// of a block the block's annotations, and diagnostics that span or repeat across members.)
+func checkOwnDocWins(c *Ctx, r *Report, clause string) {
+	w := c.W
+	for _, fk := range []string{"gast.GetCommentsFromTypeSpec", "(*core/visitors.BaseVisitor).getAnnotations"} {
+		fi := need(c, r, clause, fk)
+		if fi == nil {
+			continue
+		}
+		viol := ""
+		var sites []string
+		n := 0
+		// edges on which the entity has no comment of its own (its Doc is nil, or there is no entity)
+		isOwn := func(v ssa.Value) bool {
+			v = stripTrivial(v)
+			if ld, ok := v.(*ssa.UnOp); ok && ld.Op == token.MUL {
+				if fa2, ok := ld.X.(*ssa.FieldAddr); ok {
+					if f2 := structFieldVar(fa2.X.Type(), fa2.Field); f2 != nil && f2.Name() == "Doc" && !strings.HasSuffix(types.TypeString(fa2.X.Type(), nil), "go/ast.GenDecl") {
+						return true
+					}
+				}
+			}
+			if p, isParam := v.(*ssa.Parameter); isParam {
+				ts := types.TypeString(p.Type(), nil)
+				return strings.HasSuffix(ts, "go/ast.CommentGroup") || (strings.HasPrefix(ts, "*go/ast.") && !strings.HasSuffix(ts, "go/ast.GenDecl"))
+			}
+			return false
+		}
+		for _, f := range w.regionFns(fi.SSA) {
+			avoid := map[edge]bool{}
+			for _, b := range f.Blocks {
+				if len(b.Instrs) == 0 || len(b.Succs) != 2 {
+					continue
+				}
+				ifi, ok := b.Instrs[len(b.Instrs)-1].(*ssa.If)
+				if !ok {
+					continue
+				}
+				cnd, pol := unwrapNot(ifi.Cond, true)
+				bo, ok := cnd.(*ssa.BinOp)
+				if !ok || (bo.Op != token.EQL && bo.Op != token.NEQ) {
+					continue
+				}
+				var subj ssa.Value
+				if isNilConst(bo.Y) {
+					subj = bo.X
+				} else if isNilConst(bo.X) {
+					subj = bo.Y
+				}
+				if subj == nil || !isOwn(subj) {
+					continue
+				}
+				// the successor on which subj == nil
+				nilOnTrue := (bo.Op == token.EQL) == pol
+				if nilOnTrue {
+					avoid[edge{b, b.Succs[0]}] = true
+				} else {
+					avoid[edge{b, b.Succs[1]}] = true
+				}
+			}
+			reach, _ := reachAvoiding(f, nil, avoid)
+			for _, b := range f.Blocks {
+				for _, ins := range b.Instrs {
+					fa, ok := ins.(*ssa.FieldAddr)
+					if !ok {
+						continue
+					}
+					fv := structFieldVar(fa.X.Type(), fa.Field)
+					if fv == nil || fv.Name() != "Doc" || !strings.HasSuffix(types.TypeString(fa.X.Type(), nil), "go/ast.GenDecl") {
+						continue
+					}
+					n++
+					sites = append(sites, w.pos(fa.Pos()))
+					if reach[b] {
+						viol = fmt.Sprintf("%s: %s reads the enclosing declaration's comment (GenDecl.Doc) on a path on which the entity's own comment was not found nil: the block's comment then competes with - or replaces, or is merged into - the entity's own", w.pos(fa.Pos()), fk)
+					}
+				}
+			}
+		}
+		if n == 0 {
+			viol = fk + " no longer falls back to the enclosing declaration's comment (GenDecl.Doc): a single `type X struct` whose comment go/parser attaches to the declaration would lose its annotations"
+		}
+		r.add(clause, "guardedby", fk+":own-doc-wins", "the enclosing declaration's comment is read only when the entity has none of its own", []string{fk}, sites, viol)
+	}
 }
